@@ -23,7 +23,7 @@ ASSUMPTIONS = ["six 1.17 shim", "actor assumption", "operations are issued at qu
                "about races between a reinstall and messages in flight)"]
 BUDGET = {"quick": (600, 150), "thorough": (20000, 2400)}
 FAULTS = ["reinstall", "clean_restart"]
-PROBES = ["pin_kept_after_reinstall", "untrusted_first_message_refused", "untrusted_bundle_refused", "autotrust_replaced_pin",
+PROBES = ["identity_change_notification_after_reinstall", "pin_kept_after_reinstall", "untrusted_first_message_refused", "untrusted_bundle_refused", "autotrust_replaced_pin",
           "pin_enforced_after_restart", "messaging_resumed_with_autotrust", "first_contact_by_incoming_message", "autotrust_toggled_while_connected"]
 SHRINK = ["ops"]
 PH = {"A": "4915150000001", "B": "4915150000002", "C": "4915150000003"}
@@ -55,6 +55,11 @@ def case(idx, tier, base):
         elif x < 0.82 and i >= 1:
             ops.append("reinstall_b")
             reinstalled = True
+            if r.random() < 0.5:
+                # the server tells A that B's identity changed (A then fetches B's keys on its own)
+                ops.append("notify_identity")
+        elif x < 0.86 and reinstalled:
+            ops.append("notify_identity")
         elif x < 0.90:
             ops.append("restart_a")
         elif x < 0.96:
@@ -63,7 +68,7 @@ def case(idx, tier, base):
             ops.append("c2a")
     if not reinstalled:
         ops.insert(r.randint(1, len(ops)), "reinstall_b")
-        ops.append(r.choice(["a2b", "b2a"]))
+        ops.append(r.choice(["a2b", "b2a", "notify_identity"]))
     return {"seed": seed, "autotrust": idx % 2 == 1, "ops": ops}
 
 
@@ -231,6 +236,15 @@ class W(convo.World):
                     self.status = self.status or "stuck-after-reinstall"
                     return
                 self.read_b_identity()
+            elif op == "notify_identity":
+                from doubles.refcodec import Node
+                if self.reinstalled_since_pin():
+                    self.after_reinstall_attempts += 1
+                    self.probe("identity_change_notification_after_reinstall")
+                self.nid = getattr(self, "nid", 0) + 1
+                self.server.to_jid(self.a.jid, Node("notification", {"from": self.b.jid, "type": "encrypt", "id": "idn-%d" % self.nid,
+                                                                     "t": str(self.server.now())}, [Node("identity")]))
+                self.kick_server()
             elif op in ("autotrust_on", "autotrust_off"):
                 v = op == "autotrust_on"
                 if v != self.auto:
